@@ -2,9 +2,12 @@ package main
 
 import (
 	"fmt"
+	"os"
 	"path"
+	"strconv"
 	"strings"
 	"syscall"
+	"time"
 
 	"github.com/jxsl13/backupfs"
 )
@@ -26,11 +29,12 @@ func init() {
 }
 
 type OSCase struct {
-	Kind   string   `json:"kind"` // "oscase"
-	Umask  int      `json:"umask"`
-	Tree   []Entry  `json:"tree"`
-	Ops    []Op     `json:"ops"`
-	Hidden []string `json:"hidden,omitempty"` // non-nil: the operations go through HiddenFS(Hidden...)
+	Kind    string   `json:"kind"` // "oscase"
+	Umask   int      `json:"umask"`
+	Tree    []Entry  `json:"tree"`
+	Ops     []Op     `json:"ops"`
+	Hidden  []string `json:"hidden,omitempty"`  // non-nil: the operations go through HiddenFS(Hidden...)
+	Confine bool     `json:"confine,omitempty"` // C05 at OS level: sentinels outside the prefix, escape oracles
 }
 
 func existingPaths(dump []string) []string {
@@ -49,6 +53,18 @@ func runOSCase(c OSCase, b *Batch, res *Result) error {
 	defer rc.Close()
 	if err := rc.Build("", c.Tree); err != nil {
 		return fmt.Errorf("build: %w", err)
+	}
+	var cs *confineState
+	if c.Confine {
+		for _, e := range confineSentinels {
+			p := rc.Tmp + e.Path
+			if err := os.WriteFile(p, []byte(e.Data), 0o644); err != nil {
+				return err
+			}
+			_ = os.Chmod(p, goMode(e.Mode))
+			t := time.Unix(0, e.MTime)
+			_ = os.Chtimes(p, t, t)
+		}
 	}
 	rc.MarkStart()
 	pfs, err := backupfs.NewPrefixFS(backupfs.NewOSFS(), rc.Root)
@@ -81,12 +97,37 @@ func runOSCase(c OSCase, b *Batch, res *Result) error {
 	for _, l := range initLines("", c.Tree) {
 		b.Add(tag, l, "ok")
 	}
-	b.Add(tag+" init-tree", line("os.tree", modelRoot), line(rc.Dump("")...))
+	treeRoot := modelRoot
+	dump := func() []string { return rc.Dump("") }
+	if c.Confine {
+		for _, e := range confineSentinels {
+			b.Add(tag, line("os.init", e.Kind, e.Path, fmt.Sprint(e.Mode), "0", "0", strconv.FormatInt(e.MTime, 10), e.Data), "ok")
+		}
+		// compare the whole disk from /w on, not only the prefix directory
+		treeRoot = "/w"
+		dump = func() []string { return rc.DumpAbs(rc.Tmp + "/w") }
+		cs = &confineState{rc: rc, created: map[uint64]linkRec{}}
+		cs.outside = cs.outsideDump()
+	}
+	b.Add(tag+" init-tree", line("os.tree", treeRoot), line(dump()...))
 	for i, op := range c.Ops {
 		out := execOp(rc, real, op)
 		cmd, f := modelOpFields(op)
 		b.Add(fmt.Sprintf("%s op%d %v", tag, i, op), line(append([]string{"os." + cmd, stack}, f...)...), line(out...))
-		b.Add(fmt.Sprintf("%s tree-after-op%d %v", tag, i, op), line("os.tree", modelRoot), line(rc.Dump("")...))
+		b.Add(fmt.Sprintf("%s tree-after-op%d %v", tag, i, op), line("os.tree", treeRoot), line(dump()...))
+		if cs != nil {
+			if op.K == "symlink" && out[0] == "ok" {
+				cs.noteSymlink(op)
+			}
+			if what, known := cs.check(); what != "" {
+				res.violate(Violation{Property: "C05", What: fmt.Sprintf("after op %d %v: %s", i, op, what), Known: known, Case: c})
+				res.count("confine.fail." + known + "." + cs.cause)
+				if known == "" {
+					break // the case is reported once
+				}
+				cs.reported = true
+			}
+		}
 		res.count("op." + op.K + "." + out[0])
 		if out[0] != "ok" && len(out) > 1 {
 			res.count("err." + out[1])
@@ -116,9 +157,10 @@ func streamOS(cfg *Config, res *Result) error {
 	b := &Batch{}
 	g := &OpGen{Mutating: allMutators, ReadOnly: true, Unclean: true}
 	distinct := map[string]struct{}{}
+	caseByTag := map[string]OSCase{}
 	for _, raw := range corpusCases("oscase") {
 		var oc OSCase
-		if remarshal(raw, &oc) == nil && (oc.Hidden == nil || cfg.Prop == "C06" || cfg.Prop == "C11" || cfg.Prop == "C15") {
+		if remarshal(raw, &oc) == nil && (oc.Hidden == nil || cfg.Prop == "C06" || cfg.Prop == "C11" || cfg.Prop == "C15") && (!oc.Confine || cfg.Prop == "C05") {
 			syscall.Umask(oc.Umask)
 			err := runOSCase(oc, b, res)
 			syscall.Umask(umask)
@@ -175,6 +217,12 @@ func streamOS(cfg *Config, res *Result) error {
 				}
 			}
 		}
+		if cfg.Prop == "C05" {
+			c.Confine = true
+			c.Tree = genTree(r, GenOpts{NoLinks: true})
+			c.Ops = genConfineOps(r, c.Tree)
+		}
+		caseByTag[fmt.Sprintf("oscase#%d", res.Evaluations)] = c
 		if err := runOSCase(c, b, res); err != nil {
 			return err
 		}
@@ -195,6 +243,9 @@ func streamOS(cfg *Config, res *Result) error {
 		id := strings.SplitN(d.Tag, " ", 2)[0]
 		if !seen[id] {
 			seen[id] = true
+			if c, ok := caseByTag[id]; ok {
+				d.Case = c
+			}
 			first = append(first, d)
 		}
 	}
